@@ -256,8 +256,8 @@ Proof.
     destruct (resize_locked_count s t (Z.of_nat n) x G) as [C1 C2].
     pose proof (resize_locked_effect s t (Z.of_nat n) G Hdebt (Zle_0_nat n)) as E. cbv zeta in E.
     destruct E as (_&_&_&_&_&_&_&_&_&_&_&_&_&_&_&_&Hpcs).
-    assert (E : get PNone t (tasks (resize_locked s t (Z.of_nat n))) = OResize n).
-    { change (pcof (resize_locked s t (Z.of_nat n)) t = OResize n). rewrite Hpcs; unfold pcof; rewrite Heqp; reflexivity. }
+    assert (E : get PNone t (tasks (resize_locked s t (Z.of_nat n))) = OResizeL n).
+    { change (pcof (resize_locked s t (Z.of_nat n)) t = OResizeL n). rewrite Hpcs; unfold pcof; rewrite Heqp; reflexivity. }
     rewrite E, C2. cbn [pcnt pobj]. lia.
   - (* retain *)
     match goal with E : retain_loop ?t ?ds (vec s) s = (?s1, ?kept, ?rem) |- _ =>
@@ -277,8 +277,8 @@ Proof.
     destruct (resize_locked_count s0 t 0 x G0) as [C1 C2].
     pose proof (resize_locked_effect s0 t 0 G0 Hdebt (Z.le_refl 0)) as E. cbv zeta in E.
     destruct E as (_&_&_&_&_&_&_&_&_&_&_&_&_&_&_&_&Hpcs).
-    assert (E : get PNone t (tasks (resize_locked s0 t 0)) = OClose).
-    { change (pcof (resize_locked s0 t 0) t = OClose). rewrite Hpcs; unfold pcof; subst s0; sp; rewrite Heqp; reflexivity. }
+    assert (E : get PNone t (tasks (resize_locked s0 t 0)) = OCloseL).
+    { change (pcof (resize_locked s0 t 0) t = OCloseL). rewrite Hpcs; unfold pcof; subst s0; sp; rewrite Heqp; reflexivity. }
     rewrite E, C2. subst s0. sp. cbn [pcnt pobj]. lia.
   - (* status *)
     unfold status_event. cbn [dcount]. lia.
